@@ -237,6 +237,11 @@ def dg(text):
     return hashlib.blake2b(text, digest_size=8).hexdigest()
 
 
+def canon(text):
+    """Stage text without the reader-only part of each line (after ' ;; ')."""
+    return "\n".join(line.split(" ;; ")[0] for line in text.split("\n"))
+
+
 def ins_text(ins):
     """Printable form of a (possibly not yet / freshly coloured) instruction.  str() of a
     coloured virtual register needs Register.from_num, which some targets lack."""
@@ -253,7 +258,7 @@ def make_reporter(events):
     from ppci import ir
     from ppci.irutils import Writer
     from ppci.utils.reporting import ReportGenerator
-    from ppci.binutils.outstream import TextOutputStream
+    from ppci.arch.generic_instructions import Label
 
     class Staging(ReportGenerator):
         def __init__(self):
@@ -301,14 +306,28 @@ def make_reporter(events):
             self.put("isel" if self.n_frame == 1 else "regalloc", text)
 
         def dump_instructions(self, instructions, arch):
-            f = io.StringIO()
-            ts = TextOutputStream(arch.asm_printer, f=f, add_binary=False)
-            try:
-                ts.emit_all(instructions)
-                text = f.getvalue()
-            except Exception as ex:  # printing is not the property; never let it matter
-                text = "unprintable:" + type(ex).__name__
-            self.put("emit", text)
+            # canonical form = encoding + instruction class + relocation symbols (what reaches the object file);
+            # the printed form is appended after " ;; " for the reader only: it may show a register *set* in
+            # iteration order (e.g. thumb 'pop {PC, R7}' / 'pop {R7, PC}') although the encoding is the same
+            lines = []
+            for ins in instructions:
+                try:
+                    shown = arch.asm_printer.print_instruction(ins)
+                except Exception:  # noqa
+                    shown = type(ins).__name__
+                if isinstance(ins, Label):
+                    lines.append("label %s" % ins.name)
+                    continue
+                try:
+                    code = ins.encode().hex()
+                    rel = ",".join(str(r.symbol_name) for r in ins.relocations())
+                except Exception as ex:  # noqa
+                    code, rel = "unencodable:" + type(ex).__name__, ""
+                if code:
+                    lines.append("%s %s %s ;; %s" % (code, type(ins).__name__, rel, shown))
+                else:
+                    lines.append("%s %s" % (type(ins).__name__, shown))
+            self.put("emit", "\n".join(lines))
 
     return Staging()
 
@@ -367,7 +386,7 @@ def compile_op(prog, target, level, cpu=60):
     finally:
         signal.setitimer(signal.ITIMER_VIRTUAL, 0)
         signal.signal(signal.SIGVTALRM, old)
-    rec["stages"] = [[s, fn, dg(t)] for s, fn, t in events]
+    rec["stages"] = [[s, fn, dg(canon(t))] for s, fn, t in events]
     return rec, events
 
 
@@ -391,14 +410,14 @@ def side_channel(rec, events):
 
 def run_ops(ops):
     """Execute a sequence of compile operations in this process, one record each.
-    The CPU time is reported as a fixed-width string: a record whose length depended on a
-    measured time would make the allocation pattern (and so the heap layout) depend on timing."""
+    The CPU time is reported as a fixed-width string formatted straight from the float: a record
+    whose length depended on a measured time, or an int object that is allocated only when the
+    value exceeds the small-int cache, would make the heap layout depend on timing."""
     import time
     for j, (prog, target, level) in enumerate(ops):
         c0 = time.process_time()
         rec, events = compile_op(prog, target, level)
-        ms = min(999999, int((time.process_time() - c0) * 1000))
-        rec.update({"j": j, "prog": prog, "target": target, "level": level, "cpu": "%06d" % ms})
+        rec.update({"j": j, "prog": prog, "target": target, "level": level, "cpu": "%010.3f" % (time.process_time() - c0)})
         emit(rec)
         side_channel(rec, events)
         del events, rec
@@ -419,6 +438,10 @@ def pad_heap(n):
 def main():
     spec = json.loads(sys.stdin.read())
     sys.stdout = sys.stderr   # records go to fd 1 with os.write; anything ppci prints must not mix in
+    # logging.LogRecord allocates a transient int only when the millisecond part of the wall clock exceeds the
+    # small-int cache: with PYTHONMALLOC=malloc that makes the heap layout depend on the time of day
+    import logging
+    logging.disable(logging.CRITICAL)
     keep = pad_heap(spec["pad"])
     sys.path.insert(0, spec["repo"])
     import ppci
